@@ -56,6 +56,11 @@ impl SixelParser {
             self.parse_char(ch)?;
         }
         self.parse_char('#')?;
+        // rows grow independently, pad them to the widest one so the image is a complete rectangle
+        let line_len = self.picture_data.iter().map(Vec::len).max().unwrap_or(0);
+        for line in &mut self.picture_data {
+            line.resize(line_len, 0);
+        }
         let mut picture_data = Vec::new();
         for y in 0..self.height() {
             let line = &self.picture_data[y as usize];
